@@ -162,8 +162,33 @@ def export_calls(ctx, R):
             return [n for n in cfg.stmt_nodes() if n.ast is not None and any(isinstance(c.func, ast.Attribute) and c.func.attr == name and ntext(c.func.value) == selfn for c in calls_in(n.ast) + ([n.ast.value] if isinstance(n.ast, ast.Expr) and isinstance(n.ast.value, ast.Call) else []))]
 
         comp = nodes_calling("compute")
-        okc = len(comp) == 1 and isinstance(comp[0].ast, ast.Assign) and ntext(comp[0].ast.targets[0]).replace(" ", "") in ("(%s.nodes,%s.renderer)" % (selfn, selfn), "%s.nodes,%s.renderer" % (selfn, selfn)) and not cfg.exists_path(cfg.entry, cfg.exit, avoid=comp)
-        R.check(okc, "C07.EXPORT-CALLS", f.qual + "|compute first", where(f), "self.nodes, self.renderer = self.compute() on every export", "export does not start with `self.nodes, self.renderer = self.compute()`: the drawing would use stale or missing nodes")
+        # semantic form: when each add_* runs, self.nodes / self.renderer hold the result of the compute() call made by
+        # this very export (however the assignment is spelled: tuple target, helper method, two statements)
+        seen_state = []
+        ncomp = [0]
+
+        def hook(fv, args, kwargs, node, st_):
+            if isinstance(fv, Closure) and fv.func.qual == TL + ".compute":
+                ncomp[0] += 1
+                return Seq("tuple", [Opaque("NODES%d" % ncomp[0], kind="obj"), Opaque("RENDERER%d" % ncomp[0], kind="obj")])
+            if isinstance(fv, Closure) and fv.func.cls is not None and fv.func.name.startswith("add_") and fv.func.cls.qual.startswith("timeline.Timeline"):
+                hn, hr = st_.heap.get(("self", "nodes")), st_.heap.get(("self", "renderer"))
+                seen_state.append((fv.func.name, key(hn) if hn is not None else None, key(hr) if hr is not None else None))
+                return NONE
+            if isinstance(fv, Ext):
+                return Opaque("%s(...)#%d" % (fv.name, len(seen_state)), kind="obj")
+            return None
+
+        evx = new_eval(P, on_call=hook)
+        stx = evx.new_state(f)
+        sx = Opaque("self", cls=P.cls(backend), kind="obj")
+        stx.heap[("self", "nodes")] = Const(None)
+        stx.heap[("self", "renderer")] = Const(None)
+        stx.heap[("self", "options")] = DictV({"showTicks": Const(True), "initialWidth": Num.atom("IW"), "initialHeight": Num.atom("IH")}, fallback="OPT")
+        evx.call_closure(Closure(f, None, selfv=sx), [], {}, stx)
+        stale = [t for t in seen_state if t[1] != "NODES1" or t[2] != "RENDERER1"]
+        okc = len(comp) >= 1 and ncomp[0] == 1 and bool(seen_state) and not stale and not cfg.exists_path(cfg.entry, cfg.exit, avoid=comp)
+        R.check(okc, "C07.EXPORT-CALLS", f.qual + "|compute first", where(f), "every add_* of this export sees the nodes and renderer of this export's own compute()", "export does not lay out first: compute() runs %d time(s) and the emitters see %s (expected the nodes/renderer returned by this export's compute()): the drawing would use stale or missing nodes" % (ncomp[0], stale[:3] or seen_state[:2]))
         for name in ("add_main", "add_timeline", "add_links", "add_labels", "add_dots"):
             ns = nodes_calling(name)
             ok = len(ns) == 1 and not cfg.exists_path(cfg.entry, cfg.exit, avoid=ns) and (not comp or cfg.dominates(comp[0], ns[0]))
@@ -400,7 +425,11 @@ def link(ctx, R):
                     n_ = {"M": 2, "L": 2, "C": 6}.get(toks[j])
                     if n_ is None:
                         break
-                    cmds.append((toks[j], [h[int(x[1:-1])][0] if re.match(r"^<\d+>$", x) else C(float(x)) for x in toks[j + 1: j + 1 + n_]]))
+                    try:
+                        cmds.append((toks[j], [h[int(x[1:-1])][0] if re.match(r"^<\d+>$", x) else C(float(x)) for x in toks[j + 1: j + 1 + n_]]))
+                    except (ValueError, IndexError):
+                        cmds.append(("malformed:" + " ".join(toks[j: j + 1 + n_])[:30], []))
+                        break
                     j += 1 + n_
                 shape = [c[0] for c in cmds]
                 want_shape = ["M", "C", "L", "C"] if chain else ["M", "C"]
@@ -480,4 +509,15 @@ def boxsize(ctx, R):
         R.check(hv is not None and num_const(hv) is not None and num_const(hv) > 0, "C07.THICK", f.qual, where(f), "with an explicit width every item has the same constant height (%s)" % (num_const(hv) if hv is not None else None), "with an explicit width Item.height is %s: boxes of one layer would differ in thickness, so links no longer end on the box edge for `up`" % (show(hv) if hv is not None else None))
 
 
-RULES = [normalise, one_each, init_order, export_calls, pipeline, scale_flow, axis, dots, link, boxsize, c09_ticks, c09_labels]
+
+def _lz(mod, fn, rid):
+    def run(ctx, R):
+        import importlib
+        return getattr(importlib.import_module("sa.rules." + mod), fn)(ctx, R)
+
+    run.rule_id = rid
+    run.__name__ = fn
+    return run
+
+# the link ends on the box only if the box is where the layer geometry puts it (C08.GEOMETRY); the caller's options must reach the drawing
+RULES = [normalise, one_each, init_order, export_calls, pipeline, scale_flow, axis, dots, link, boxsize, c09_ticks, c09_labels, _lz("c08", "geometry", "C08.GEOMETRY"), _lz("c11", "timeline_opts", "GEN.OPTS-MERGE")]
